@@ -7,6 +7,7 @@ package mustache
 // "names matched case-insensitively": a key spelled exactly like the name wins; otherwise some key matches ignoring case iff
 // there is a result, and the result is the value of a matching key - whatever order the map is iterated in (the loop invariants
 // speak about the keys the iteration has produced so far, `visited`; when it ends every key has been produced)
+//@ maporder (c *MustacheTemplate) GetVariable the posts below hold for every order in which the range statement produces the keys (invariants over `visited`): the result is the value of the exact key or of the least matching key
 //@ func (c *MustacheTemplate) GetVariable
 //@   tags C03, C19
 //@   requires c != nil
